@@ -195,6 +195,24 @@ CHECKS = {
              "boundary not occurring in content is probabilistic (checked per case); model + harness. Known finding: a top-level single "
              "part has an extra CRLF for a MIME reader.",
         technique="Lean 4 proof (structural facts of the formatter) + correspondence with an independent RFC 2046 reader on real output"),
+    "C13": dict(
+        category="proof",
+        text="Lean theorems, crypto primitives abstract: body_hash_input_agrees (for every message and both canonicalizations the octets hashed "
+             "for bh= are the RFC 6376 canonical form of the emitted body: empty, blank-only, trailing blank lines / white space, no final "
+             "CRLF), body_transport_invariant (the CRLF supplied by SMTP DATA framing does not change it), sign_keeps_body_and_part_headers, "
+             "sign_adds_one_field, h_lists_signed_fields, body_alteration_changes_input. The header half (header_input_agrees, relaxed "
+             "canonicalization invariant under re-folding of the signature field, covered-field selection = RFC 5.4.2 bottom-up selection) is "
+             "stated in Props/C13.lean and not proved: it is decided per case by the RFC 6376 reader of Spec/DkimVerifier.lean applied to the "
+             "real emitted octets (and to the octets after DATA framing), whose two hash inputs must equal the signer's, observed through a "
+             "hook and tied to the emitted bh= / b= with sha2 / rsa / ed25519-dalek verification primitives; removal of the signature field "
+             "must give back the unsigned message; three alterations of protected octets per case must change a hash input. Correspondence: "
+             "Model/Dkim.lean vs the canonicalization kernels (body exhaustive over {a,SP,HTAB,CR,LF}^<=5/7) and the whole signing path.",
+        design_ref="DESIGN.md 5 C13",
+        note="Trusted: Lean kernel; axioms propext/Quot.sound/Classical.choice; Spec/DkimVerifier.lean as the reading of RFC 6376; Model/Sha256.lean "
+             "(compared with sha2 per case); the crypto primitives of sha2 / rsa / ed25519-dalek and collision resistance (A6); model + harness. "
+             "Known finding: header canonicalization simple (the default) does not verify because the signature field is re-folded after hashing "
+             "(pinned by the repository's test_signature_rsa_simple). Four DKIM defects were repaired in /repo (see known_findings.json).",
+        technique="Lean 4 proof (body canonicalization agreement for all bodies; structure of signing) + correspondence with an independent RFC 6376 reader on real signed output"),
 }
 
 NOT_APPLICABLE = {
